@@ -101,7 +101,10 @@ func drawCols(r *kernel.RNG, want string) []colKind {
 		case "mask":
 			c.Mask, c.MaskLen, c.MaskSide = true, r.Intn(8), r.Pick("left", "right")
 		case "token":
-			c.Token = r.Pick("str", "bytes", "int32", "int64", "email")
+			// integer tokens are left to C10: their decimal length depends on the random
+			// value, and Acra draws randomness for bound parameters in Go map order, which
+			// would make byte counts (and so chunked schedules) differ between executions
+			c.Token = r.Pick("str", "bytes", "email")
 		case "typed":
 			c.DataType = r.Pick("str", "bytes", "int32", "int64")
 			c.OnFail = r.Pick("", "ciphertext", "default_value", "error")
